@@ -53,11 +53,20 @@ def begin_case():
     simmanager.install()
     simmanager.reset()
     identity.install()
+    _salt[0] = _salt[1] = 0
     reset_process_globals()  # e.g. pipefunc._utils._cached_load, a process-wide lru_cache keyed by (path, mtime, size)
 
 
-def new_sim(exec_tape, root=None, *, preempt=0.3, step_cap=20000, clock=False, fs_kwargs=None, log_events=False):
+_salt = [0, 0]  # [processes started in this case, salt of the latest one]
+
+
+def new_sim(exec_tape, root=None, *, preempt=0.3, step_cap=20000, clock=False, fs_kwargs=None, log_events=False,
+            same_process=False):
     sim = Sim(exec_tape, preempt=preempt, step_cap=step_cap, log_events=log_events)
+    if not same_process or not _salt[1]:
+        _salt[0] += 1
+        _salt[1] = (_salt[0] * 0x9E3779B97F4A7C15) & 0x3FFFFFFFFFFFFFFF
+    sim.hash_salt = _salt[1]  # every simulated process has its own str-hash salt (sim/identity.py)
     simmanager.install()
     if root is not None:
         simfs.SimFS(sim, root, **(fs_kwargs or {}))
